@@ -239,6 +239,88 @@ def quit_scenarios():
     return out
 
 
+def onward_scenarios():
+    """A switch requested by an event callback that is released WHILE a world is being entered
+    (an on_switch_in listener of a loading-screen world that moves on at once): the loop serves
+    it like any other request - the frame goes to the final target, start() does not raise."""
+    import desper
+    out = []
+    for how in ('switch()', 'raise SwitchWorld'):
+        log = []
+        handles = {}
+        frames = [0]
+
+        @desper.event_handler('on_switch_in', 'on_switch_out')
+        class Listener:
+            def __init__(self, name):
+                self.name = name
+
+            def on_switch_in(self, f, t):
+                log.append(('in', self.name))
+                if self.name == 'B':
+                    if how == 'switch()':
+                        desper.switch(handles['C'])
+                    else:
+                        raise desper.SwitchWorld(handles['C'])
+
+            def on_switch_out(self, f, t):
+                log.append(('out', self.name))
+
+        class Driver(desper.Processor):
+            def process(self, dt):
+                log.append(('process', self.world.name, dt))
+                frames[0] += 1
+                if frames[0] == 1:
+                    desper.switch(handles['B'])
+                if frames[0] >= 4:
+                    raise desper.Quit()
+
+        class WH(desper.Handle):
+            def __init__(self, name):
+                self.name = name
+
+            def load(self):
+                w = desper.World()
+                w.name = self.name
+                w.add_processor(Driver())
+                w.keep = Listener(self.name)
+                w.create_entity(w.keep)
+                return w
+        for n_ in 'ABC':
+            handles[n_] = WH(n_)
+        loop = desper.SimpleLoop(iter(range(0, 1000, 5)).__next__)
+        signal.signal(signal.SIGALRM, _alarm)
+        signal.alarm(10)
+        try:
+            saved = getattr(desper, 'default_loop', None)
+            desper.default_loop = loop
+            loop.switch(handles['A'])
+            try:
+                loop.start()
+            except Hang:
+                out.append(('C13', 'a switch requested while entering a world (%s): the loop hangs' % how,
+                            'onward-hang'))
+                continue
+            except desper.SwitchWorld:
+                out.append(('C13', 'an on_switch_in listener of the world being entered asked for a further switch '
+                                   '(%s): SwitchWorld escaped from SimpleLoop.start() instead of being served '
+                                   '(log %r)' % (how, log), 'onward-switch-escapes'))
+                continue
+            except Exception as e:      # noqa
+                out.append(('C13', 'onward switch (%s): start() raised %r' % (how, e), 'onward-error'))
+                continue
+        finally:
+            signal.alarm(0)
+            desper.default_loop = saved
+        procs = [e for e in log if e[0] == 'process']
+        if [e[1] for e in procs] != ['A', 'C', 'C', 'C'] or [e[2] for e in procs] != [0, 5, 5, 5]:
+            out.append(('C13', 'onward switch (%s): frames went to %r' % (how, procs), 'onward-frames'))
+        if [e for e in log if e[0] == 'in'] != [('in', 'B'), ('in', 'C')][:2 if how == 'switch()' else 1]:
+            out.append(('C13', 'onward switch (%s): on_switch_in deliveries %r'
+                        % (how, [e for e in log if e[0] == 'in']), 'onward-in'))
+    return out
+
+
 def main():
     req = json.loads(sys.stdin.read())
     pid = req.get('property')
@@ -258,6 +340,14 @@ def main():
         print(json.dumps({'status': 'no-witness'}))
         return
     tried = 0
+    for v in (onward_scenarios() if pid in ('C13', None) else []):
+        sig = '%s:%s' % (v[0], v[2])
+        if sig in skip or (want and sig != want):
+            continue
+        print(json.dumps({'status': 'reproduced', 'history': {'scenario': 'onward_scenarios'},
+                          'observed': v[1], 'violates': v[0], 'found_by': 'native scenario',
+                          'signature': sig}, default=str))
+        return
     for v in quit_scenarios():
         sig = '%s:%s' % (v[0], v[2])
         if sig in skip or (want and sig != want):
